@@ -32,12 +32,14 @@ ASSUMPTIONS = ['precision matrices SPD with condition number <= 1e2',
                'poisson: non-negative data', 'tolerance rtol 1e-9 / atol 1e-10']
 REQUIRED = ['check:single_vs_reference', 'check:list_vs_reference', 'check:movie_vs_reference',
             'check:meta_row_permutation', 'check:meta_container', 'check:meta_dtype',
-            'check:descriptor_propagation', 'check:one_element_list']
+            'check:descriptor_propagation', 'check:one_element_list',
+            'check:repeat_calls_same_object']
 REACH = ['calc_rdm', 'calc_rdm_euclidean', 'calc_rdm_correlation', 'calc_rdm_mahalanobis',
          'calc_rdm_poisson', '_build_rdms', 'average_dataset_by', 'from_partials', 'concat',
          'calc_rdm_movie', 'RDMs.sort_by']
 TIME_BUDGET = {'quick': 60, 'thorough': 600}
-FAIL_KEYS = ['method', 'remove_mean', 'one_channel', 'nodesc', 'movie', 'narrow_int', 'noise', 'conv']
+FAIL_KEYS = ['method', 'remove_mean', 'one_channel', 'nodesc', 'movie', 'narrow_int', 'noise', 'conv',
+             'prev']
 
 METHODS = ['euclidean', 'correlation', 'mahalanobis', 'poisson']
 RT, AT = 1e-9, 1e-10
@@ -485,6 +487,65 @@ def check_movie(ctx, case):
         ctx.fail('movie_vs_reference', dict(sig, aspect='measure'), 'measure name', data())
 
 
+def check_repeat_calls(ctx, case):
+    """history independence: several calls on the *same* Dataset object (different methods /
+    options, with and without descriptor) must each equal the reference on the original data"""
+    rng = ctx.rng
+    if case['method'] == 'poisson' or np.issubdtype(case['meas'].dtype, np.integer):
+        vk = case['vkind']
+    else:
+        vk = 'normal'
+    ds = build_ds(case)
+    orig = np.array(case['meas'], copy=True)
+    steps = []
+    methods = ['poisson'] if case['method'] == 'poisson' else ['correlation', 'euclidean', 'mahalanobis']
+    if case['n_ch'] < 3 and 'correlation' in methods:
+        methods.remove('correlation')
+    prec = case['prec'] if case['prec'] is not None else gen.spd(rng, case['n_ch'], 50.0)
+    for _ in range(3):
+        steps.append(dict(method=gen.pick(rng, methods), nodesc=bool(rng.integers(2)),
+                          remove_mean=bool(rng.integers(2))))
+    for k, st in enumerate(steps):
+        sig = dict(method=st['method'], nodesc=st['nodesc'], remove_mean=st['remove_mean'],
+                   step=k, prev=steps[k - 1]['method'] if k else 'none', values=vk,
+                   narrow_int=case['vkind'] == 'int8')
+        kw = dict(method=st['method'], descriptor=None if st['nodesc'] else 'cond')
+        if st['method'] == 'mahalanobis':
+            kw['noise'] = prec.copy()
+        if st['method'] in ('euclidean', 'mahalanobis'):
+            kw['remove_mean'] = st['remove_mean']
+        if st['method'] == 'poisson':
+            kw['prior_lambda'], kw['prior_weight'] = case['prior_lambda'], case['prior_weight']
+        data = lambda: witness(case, steps=steps, failing_step=k)  # noqa: E731
+        ok, rd = ctx.guarded('repeat_calls_same_object', sig, calc_rdm, ds, data=data, **kw)
+        if not ok:
+            return
+        labels = list(range(len(case['obs_lab']))) if st['nodesc'] else case['obs_lab']
+        want = ref.rdm_pairs(orig, labels, st['method'], prec=prec,
+                             remove_mean=st['remove_mean'] and st['method'] != 'poisson',
+                             prior_lambda=case['prior_lambda'], prior_weight=case['prior_weight'])
+        if any(np.isnan(v) for v in want.values()):
+            ctx.count('rejected_degenerate')
+            continue
+        ctx.case('repeat_calls_same_object', sig)
+        if st['nodesc']:
+            mat = rd.get_matrices()[0]
+            n = len(labels)
+            bad = [(i, j) for i in range(n) for j in range(i + 1, n)
+                   if not close(mat[i, j], want[frozenset((i, j))], RT, AT)]
+            if bad:
+                i, j = bad[0]
+                ctx.fail('repeat_calls_same_object', sig, f'step {k} ({st}) after {steps[:k]}: obs pair '
+                         f'({i},{j}) {mat[i, j]!r} vs {want[frozenset((i, j))]!r}', data())
+                return
+        elif not compare_to_ref(ctx, 'repeat_calls_same_object', sig, rd, want, data=data):
+            return
+        if not np.array_equal(ds.measurements, orig):
+            ctx.fail('repeat_calls_same_object', dict(sig, aspect='dataset_modified'),
+                     f'step {k} ({st}) modified dataset.measurements', data())
+            return
+
+
 def run(ctx):
     n = ctx.n(250, 800)
     for it in range(n):
@@ -501,6 +562,7 @@ def run(ctx):
         if case['method'] != 'correlation' or case['n_ch'] >= 3:
             check_nodesc(ctx, case)
         check_list(ctx, case)
+        check_repeat_calls(ctx, case)
         if it % 3 == 0:
             check_list_nodesc(ctx, case)
         if it % 2 == 0:
